@@ -313,6 +313,10 @@ func applyCall(p mq.Packet, tok string) {
 	if i := strings.IndexByte(tok, ':'); i >= 0 {
 		name, arg = tok[:i], tok[i+1:]
 	}
+	if strings.HasPrefix(name, "~") {
+		applyPseudo(p, name, arg)
+		return
+	}
 	switch name {
 	case "SetWill":
 		inner := arg[1 : len(arg)-1]
@@ -374,6 +378,57 @@ func applyCall(p mq.Packet, tok string) {
 		v.SetUint(n)
 	}
 	m.Call([]reflect.Value{v.Convert(pt)})
+}
+
+// applyPseudo runs the operations that are not setters of the packet itself:
+//   ~String ~Dump ~WriteTo ~WellFormed ~Acc   read-only operations in the middle of a history
+//   ~FailWrite                               WriteTo on a writer that fails
+//   ~WillSet:<call>                          a setter applied to the will message AFTER it was attached
+//   ~Spread:<hex:o,hex:o,...>                Subscribe.AddFilters(list...) with a caller-owned slice that is
+//                                            overwritten afterwards
+func applyPseudo(p mq.Packet, name, arg string) {
+	switch name {
+	case "~String":
+		if s, ok := p.(fmt.Stringer); ok {
+			_ = s.String()
+		}
+	case "~Dump":
+		mq.Dump(io.Discard, p)
+	case "~WriteTo":
+		var w capWriter
+		p.WriteTo(&w)
+	case "~FailWrite":
+		p.WriteTo(&scriptWriter{err: injectedErr(3)})
+	case "~WellFormed":
+		if wf, ok := p.(interface{ WellFormed() *mq.Malformed }); ok {
+			_ = wf.WellFormed()
+		}
+	case "~Acc":
+		_ = snapshot(p)
+	case "~WillSet":
+		if c, ok := p.(*mq.Connect); ok && c.Will() != nil {
+			applyCall(c.Will(), arg)
+		}
+	case "~Spread":
+		sub, ok := p.(*mq.Subscribe)
+		if !ok {
+			return
+		}
+		var list []mq.TopicFilter
+		for _, it := range strings.Split(arg, ",") {
+			parts := strings.Split(it, ":")
+			o, _ := strconv.Atoi(parts[1])
+			list = append(list, mq.NewTopicFilter(string(unhex(parts[0])), mq.Opt(o)))
+		}
+		list = append(make([]mq.TopicFilter, 0, len(list)+3), list...)
+		sub.AddFilters(list...)
+		for i := range list { // the caller reuses its slice
+			list[i] = mq.NewTopicFilter("overwritten", 0)
+		}
+		list = append(list, mq.NewTopicFilter("appended-by-caller", 0))
+	default:
+		panic("pseudo call " + name)
+	}
 }
 
 func bs(b bool) string {
